@@ -7,7 +7,7 @@ MC = """SPECIFICATION Spec
 CONSTANTS MinMtu = 128 MaxCap = 65536 MaxDepth = %d
 CONSTRAINT Constr
 VIEW View
-INVARIANTS RootStrategy RoutesOnExistingFaces MtuSane OnlyAuthorised QuerySane AttrsOfLiveFaces
+INVARIANTS RootStrategy RoutesOnExistingFaces MtuSane OnlyAuthorised QuerySane AttrsOfLiveFaces PersSane
 PROPERTY P_C17auth
 CHECK_DEADLOCK FALSE
 """
@@ -15,7 +15,7 @@ HEAD = """SPECIFICATION TSpec
 CONSTANTS MinMtu = 128 MaxCap = 65536 TraceFile = "@TRACE@"
 """
 PROPS = ["T_C17nocrash", "T_C17status", "T_C17auth"]
-INVS = ["I_C17routes", "I_C17strats", "I_C17cap", "I_C17fib", "I_C17faces", "I_C17ds", "I_C17ds2", "I_C17query", "I_C17gen", "I_C17ctr", "I_C17usable"]
+INVS = ["I_C17routes", "I_C17strats", "I_C17cap", "I_C17fib", "I_C17faces", "I_C17fprop", "I_C17ds", "I_C17ds2", "I_C17query", "I_C17gen", "I_C17ctr", "I_C17usable"]
 
 
 def nontrivial(ex):
